@@ -85,6 +85,13 @@ BEHAVIOUR = [
     ("recursion-default", "def fact(n, acc=1):\n    if n <= 1:\n        return acc\n    return fact(n - 1, acc * n)\nprint(fact(6))\n"),
     ("kwonly-default-class-var", "class A:\n    base = 5\n    def m(self, *, k=base, j=base + 1):\n        return (k, j)\nprint(A().m(), A().m(k=1))\n"),
     ("kwonly-default-captured", "def outer(x):\n    def inner(*, k=x):\n        return k\n    def cap():\n        return x\n    x = x + 1\n    return inner(), cap()\nprint(outer(1))\n"),
+    ("pos-default-captured-local", "def outer():\n    x = 2\n    def cap():\n        return x\n    def f(a=x, b=x + 1):\n        return a, b\n    return f(), cap()\nprint(outer())\n"),
+    ("pos-default-class-var", "SIZE = 1\nclass A:\n    SIZE = 5\n    def m(self, n=SIZE, k=SIZE * 2):\n        return n, k\nprint(A().m(), A().m(0))\n"),
+    ("pos-default-param-reassigned", "def outer(x):\n    x = x + 10\n    def cap():\n        return x\n    def f(a=x, *, k=x):\n        return a, k\n    return f(), cap()\nprint(outer(1))\n"),
+    ("lambda-default-class-var", "S = 1\nclass A:\n    S = 3\n    f = lambda self, n=S, *, k=S + 1: (n, k)\nprint(A().f())\n"),
+    ("lambda-default-captured-local", "def outer():\n    y = 4\n    def cap():\n        nonlocal y\n        y += 1\n        return y\n    cap()\n    g = lambda a=y, *, k=y * 2: (a, k)\n    return g(), cap()\nprint(outer())\n"),
+    ("default-in-nested-class-method", "def outer(z):\n    class K:\n        w = z + 1\n        def m(self, a=w, b=z):\n            return a, b\n    def cap():\n        return z\n    return K().m(), cap()\nprint(outer(7))\n"),
+    ("default-own-name-shadow", "x = 5\ndef f(x=x + 1):\n    def inner():\n        return x\n    return inner()\nprint(f(), f(1))\n"),
     ("posonly-default-captured", "def outer(x):\n    def inner(a=x, /, b=x * 2):\n        return (a, b)\n    def cap():\n        return x\n    return inner(), cap()\nprint(outer(3))\n"),
     ("kwonly-hole", "def f(*, a=1, b, c=3):\n    return (a, b, c)\nprint(f(b=2), f(a=0, b=5, c=9))\n"),
     ("lambda-signature", "f = lambda a, /, b=2, *c, d, e=5, **k: (a, b, c, d, e, k)\nprint(f(1, d=4), f(1, 2, 3, d=4, z=9))\n"),
